@@ -37,8 +37,9 @@ func c3Ident(s string) c3ident {
 }
 
 type c3operand struct {
-	local *c3ident
-	konst string // constant descriptor
+	local  *c3ident
+	global *string // name of a global variable or function of the module (M-Whole)
+	konst  string  // constant descriptor
 }
 
 type c3inc struct {
@@ -47,12 +48,12 @@ type c3inc struct {
 }
 
 type c3arg struct {
-	kind byte // T P V L R H
-	ty   types.Type
-	op   c3operand
-	lab  c3ident
-	void bool
-	incs []c3inc
+	kind  byte // T P V L R H
+	ty    types.Type
+	op    c3operand
+	lab   c3ident
+	void  bool
+	incs  []c3inc
 	nums  []uint64
 	align int64 // -1: none
 	ixs   []c3arg
@@ -62,6 +63,10 @@ func c3Operand(s string) c3operand {
 	if strings.HasPrefix(s, "%") {
 		i := c3Ident(s[1:])
 		return c3operand{local: &i}
+	}
+	if strings.HasPrefix(s, "@") {
+		n := string(unhexArg(s[1:]))
+		return c3operand{global: &n}
 	}
 	return c3operand{konst: s[1:]}
 }
@@ -178,6 +183,14 @@ func core3Build(a []string) *ir.Func {
 }
 
 func core3BuildIn(named map[string]*types.StructType, a []string) *ir.Func {
+	fn, finish := core3Prepare(named, a)
+	finish(map[string]value.Value{fn.GlobalName: fn})
+	return fn
+}
+
+// core3Prepare creates the function with its blocks and instructions; the returned closure fills in the operands (globals: the global variables and
+// functions of the module a `@name` operand may refer to)
+func core3Prepare(named map[string]*types.StructType, a []string) (*ir.Func, func(globals map[string]value.Value)) {
 	ret := (&tyParser{s: a[0], named: named}).ty()
 	var params []*ir.Param
 	locals := map[c3ident]value.Value{}
@@ -354,6 +367,10 @@ func core3BuildIn(named map[string]*types.StructType, a []string) *ir.Func {
 			case in.row == 73:
 				// (the result type is computed from the operands once they are filled in; the generator gives a getelementptr no getelementptr operands)
 				obj = &ir.InstGetElementPtr{ElemType: in.args[0].ty}
+			case in.row == 74:
+				obj = &ir.InstCall{Typ: types.Void}
+			case in.row == 75:
+				obj = &ir.InstCall{Typ: in.args[0].ty}
 			default:
 				panic("harness: bad row")
 			}
@@ -370,157 +387,174 @@ func core3BuildIn(named map[string]*types.StructType, a []string) *ir.Func {
 			pends = append(pends, pend{in, obj})
 		}
 	}
-	operand := func(t types.Type, o c3operand) value.Value {
-		if o.local != nil {
-			v, ok := locals[key(*o.local)]
+	return fn, func(globals map[string]value.Value) {
+		operand := func(t types.Type, o c3operand) value.Value {
+			if o.global != nil {
+				v, ok := globals[*o.global]
+				if !ok {
+					panic(fmt.Sprintf("harness: undefined global %q in descriptor (have %d)", *o.global, len(globals)))
+				}
+				return v
+			}
+			if o.local != nil {
+				v, ok := locals[key(*o.local)]
+				if !ok {
+					panic("harness: undefined local in descriptor")
+				}
+				return v
+			}
+			p := &tyParser{s: o.konst, named: named}
+			return p.constant(t)
+		}
+		block := func(i c3ident) *ir.Block {
+			b, ok := blocks[key(i)]
 			if !ok {
-				panic("harness: undefined local in descriptor")
+				panic("harness: undefined block in descriptor")
 			}
-			return v
+			return b
 		}
-		p := &tyParser{s: o.konst, named: named}
-		return p.constant(t)
-	}
-	block := func(i c3ident) *ir.Block {
-		b, ok := blocks[key(i)]
-		if !ok {
-			panic("harness: undefined block in descriptor")
-		}
-		return b
-	}
-	for _, p := range pends {
-		as := p.in.args
-		switch x := p.inst.(type) {
-		case *ir.InstICmp:
-			x.X, x.Y = operand(as[0].ty, as[0].op), operand(as[0].ty, as[1].op)
-		case *ir.InstLoad:
-			x.ElemType = as[0].ty
-			x.Src = operand(as[1].ty, as[1].op)
-			if as[2].align >= 0 {
-				x.Align = ir.Align(as[2].align)
-			}
-		case *ir.InstStore:
-			x.Src, x.Dst = operand(as[0].ty, as[0].op), operand(as[1].ty, as[1].op)
-			if as[2].align >= 0 {
-				x.Align = ir.Align(as[2].align)
-			}
-		case *ir.InstGetElementPtr:
-			x.Src = operand(as[1].ty, as[1].op)
-			for _, ix := range as[2].ixs {
-				x.Indices = append(x.Indices, operand(ix.ty, ix.op))
-			}
-		case *ir.InstExtractValue:
-			x.X = operand(as[0].ty, as[0].op)
-		case *ir.InstInsertValue:
-			x.X, x.Elem = operand(as[0].ty, as[0].op), operand(as[1].ty, as[1].op)
-		case *ir.InstSelect:
-			x.Cond, x.ValueTrue, x.ValueFalse = operand(as[0].ty, as[0].op), operand(as[1].ty, as[1].op), operand(as[2].ty, as[2].op)
-		case *ir.TermRet:
-			if !as[0].void {
+		for _, p := range pends {
+			as := p.in.args
+			switch x := p.inst.(type) {
+			case *ir.InstICmp:
+				x.X, x.Y = operand(as[0].ty, as[0].op), operand(as[0].ty, as[1].op)
+			case *ir.InstCall:
+				k := 0
+				if p.in.row == 75 {
+					k = 1
+				}
+				x.Callee = operand(nil, as[k].op)
+				for _, ix := range as[k+1].ixs {
+					x.Args = append(x.Args, operand(ix.ty, ix.op))
+				}
+			case *ir.InstLoad:
+				x.ElemType = as[0].ty
+				x.Src = operand(as[1].ty, as[1].op)
+				if as[2].align >= 0 {
+					x.Align = ir.Align(as[2].align)
+				}
+			case *ir.InstStore:
+				x.Src, x.Dst = operand(as[0].ty, as[0].op), operand(as[1].ty, as[1].op)
+				if as[2].align >= 0 {
+					x.Align = ir.Align(as[2].align)
+				}
+			case *ir.InstGetElementPtr:
+				x.Src = operand(as[1].ty, as[1].op)
+				for _, ix := range as[2].ixs {
+					x.Indices = append(x.Indices, operand(ix.ty, ix.op))
+				}
+			case *ir.InstExtractValue:
 				x.X = operand(as[0].ty, as[0].op)
-			}
-		case *ir.TermBr:
-			x.Target = block(as[0].lab)
-		case *ir.TermCondBr:
-			x.Cond, x.TargetTrue, x.TargetFalse = operand(types.I1, as[0].op), block(as[1].lab), block(as[2].lab)
-		case *ir.TermUnreachable:
-		case *ir.InstPhi:
-			for _, inc := range as[1].incs {
-				x.Incs = append(x.Incs, &ir.Incoming{X: operand(as[0].ty, inc.op), Pred: block(inc.lab)})
-			}
-		case *ir.InstFreeze:
-			x.X = operand(as[0].ty, as[0].op)
-		case *ir.InstFNeg:
-			x.X = operand(as[0].ty, as[0].op)
-		case *ir.InstFAdd:
-			x.X, x.Y = operand(as[0].ty, as[0].op), operand(as[0].ty, as[1].op)
-		case *ir.InstFSub:
-			x.X, x.Y = operand(as[0].ty, as[0].op), operand(as[0].ty, as[1].op)
-		case *ir.InstFMul:
-			x.X, x.Y = operand(as[0].ty, as[0].op), operand(as[0].ty, as[1].op)
-		case *ir.InstFDiv:
-			x.X, x.Y = operand(as[0].ty, as[0].op), operand(as[0].ty, as[1].op)
-		case *ir.InstFRem:
-			x.X, x.Y = operand(as[0].ty, as[0].op), operand(as[0].ty, as[1].op)
-		case *ir.InstFCmp:
-			x.X, x.Y = operand(as[0].ty, as[0].op), operand(as[0].ty, as[1].op)
-		case *ir.InstExtractElement:
-			x.X, x.Index = operand(as[0].ty, as[0].op), operand(as[1].ty, as[1].op)
-		case *ir.InstInsertElement:
-			x.X, x.Elem, x.Index = operand(as[0].ty, as[0].op), operand(as[1].ty, as[1].op), operand(as[2].ty, as[2].op)
-		case *ir.InstShuffleVector:
-			x.X, x.Y, x.Mask = operand(as[0].ty, as[0].op), operand(as[1].ty, as[1].op), operand(as[2].ty, as[2].op)
-		case *ir.InstAlloca:
-			if as[1].align >= 0 {
-				x.Align = ir.Align(as[1].align)
-			}
-		case *ir.InstTrunc:
-			x.From = operand(as[0].ty, as[0].op)
-		case *ir.InstZExt:
-			x.From = operand(as[0].ty, as[0].op)
-		case *ir.InstSExt:
-			x.From = operand(as[0].ty, as[0].op)
-		case *ir.InstFPTrunc:
-			x.From = operand(as[0].ty, as[0].op)
-		case *ir.InstFPExt:
-			x.From = operand(as[0].ty, as[0].op)
-		case *ir.InstFPToUI:
-			x.From = operand(as[0].ty, as[0].op)
-		case *ir.InstFPToSI:
-			x.From = operand(as[0].ty, as[0].op)
-		case *ir.InstUIToFP:
-			x.From = operand(as[0].ty, as[0].op)
-		case *ir.InstSIToFP:
-			x.From = operand(as[0].ty, as[0].op)
-		case *ir.InstPtrToInt:
-			x.From = operand(as[0].ty, as[0].op)
-		case *ir.InstIntToPtr:
-			x.From = operand(as[0].ty, as[0].op)
-		case *ir.InstBitCast:
-			x.From = operand(as[0].ty, as[0].op)
-		case *ir.InstAddrSpaceCast:
-			x.From = operand(as[0].ty, as[0].op)
-		default:
-			// binary instructions: X and Y through reflection-free setters
-			xv, yv := operand(as[0].ty, as[0].op), operand(as[0].ty, as[1].op)
-			switch b := p.inst.(type) {
-			case *ir.InstAdd:
-				b.X, b.Y = xv, yv
-			case *ir.InstSub:
-				b.X, b.Y = xv, yv
-			case *ir.InstMul:
-				b.X, b.Y = xv, yv
-			case *ir.InstUDiv:
-				b.X, b.Y = xv, yv
-			case *ir.InstSDiv:
-				b.X, b.Y = xv, yv
-			case *ir.InstURem:
-				b.X, b.Y = xv, yv
-			case *ir.InstSRem:
-				b.X, b.Y = xv, yv
-			case *ir.InstShl:
-				b.X, b.Y = xv, yv
-			case *ir.InstLShr:
-				b.X, b.Y = xv, yv
-			case *ir.InstAShr:
-				b.X, b.Y = xv, yv
-			case *ir.InstAnd:
-				b.X, b.Y = xv, yv
-			case *ir.InstOr:
-				b.X, b.Y = xv, yv
-			case *ir.InstXor:
-				b.X, b.Y = xv, yv
+			case *ir.InstInsertValue:
+				x.X, x.Elem = operand(as[0].ty, as[0].op), operand(as[1].ty, as[1].op)
+			case *ir.InstSelect:
+				x.Cond, x.ValueTrue, x.ValueFalse = operand(as[0].ty, as[0].op), operand(as[1].ty, as[1].op), operand(as[2].ty, as[2].op)
+			case *ir.TermRet:
+				if !as[0].void {
+					x.X = operand(as[0].ty, as[0].op)
+				}
+			case *ir.TermBr:
+				x.Target = block(as[0].lab)
+			case *ir.TermCondBr:
+				x.Cond, x.TargetTrue, x.TargetFalse = operand(types.I1, as[0].op), block(as[1].lab), block(as[2].lab)
+			case *ir.TermUnreachable:
+			case *ir.InstPhi:
+				for _, inc := range as[1].incs {
+					x.Incs = append(x.Incs, &ir.Incoming{X: operand(as[0].ty, inc.op), Pred: block(inc.lab)})
+				}
+			case *ir.InstFreeze:
+				x.X = operand(as[0].ty, as[0].op)
+			case *ir.InstFNeg:
+				x.X = operand(as[0].ty, as[0].op)
+			case *ir.InstFAdd:
+				x.X, x.Y = operand(as[0].ty, as[0].op), operand(as[0].ty, as[1].op)
+			case *ir.InstFSub:
+				x.X, x.Y = operand(as[0].ty, as[0].op), operand(as[0].ty, as[1].op)
+			case *ir.InstFMul:
+				x.X, x.Y = operand(as[0].ty, as[0].op), operand(as[0].ty, as[1].op)
+			case *ir.InstFDiv:
+				x.X, x.Y = operand(as[0].ty, as[0].op), operand(as[0].ty, as[1].op)
+			case *ir.InstFRem:
+				x.X, x.Y = operand(as[0].ty, as[0].op), operand(as[0].ty, as[1].op)
+			case *ir.InstFCmp:
+				x.X, x.Y = operand(as[0].ty, as[0].op), operand(as[0].ty, as[1].op)
+			case *ir.InstExtractElement:
+				x.X, x.Index = operand(as[0].ty, as[0].op), operand(as[1].ty, as[1].op)
+			case *ir.InstInsertElement:
+				x.X, x.Elem, x.Index = operand(as[0].ty, as[0].op), operand(as[1].ty, as[1].op), operand(as[2].ty, as[2].op)
+			case *ir.InstShuffleVector:
+				x.X, x.Y, x.Mask = operand(as[0].ty, as[0].op), operand(as[1].ty, as[1].op), operand(as[2].ty, as[2].op)
+			case *ir.InstAlloca:
+				if as[1].align >= 0 {
+					x.Align = ir.Align(as[1].align)
+				}
+			case *ir.InstTrunc:
+				x.From = operand(as[0].ty, as[0].op)
+			case *ir.InstZExt:
+				x.From = operand(as[0].ty, as[0].op)
+			case *ir.InstSExt:
+				x.From = operand(as[0].ty, as[0].op)
+			case *ir.InstFPTrunc:
+				x.From = operand(as[0].ty, as[0].op)
+			case *ir.InstFPExt:
+				x.From = operand(as[0].ty, as[0].op)
+			case *ir.InstFPToUI:
+				x.From = operand(as[0].ty, as[0].op)
+			case *ir.InstFPToSI:
+				x.From = operand(as[0].ty, as[0].op)
+			case *ir.InstUIToFP:
+				x.From = operand(as[0].ty, as[0].op)
+			case *ir.InstSIToFP:
+				x.From = operand(as[0].ty, as[0].op)
+			case *ir.InstPtrToInt:
+				x.From = operand(as[0].ty, as[0].op)
+			case *ir.InstIntToPtr:
+				x.From = operand(as[0].ty, as[0].op)
+			case *ir.InstBitCast:
+				x.From = operand(as[0].ty, as[0].op)
+			case *ir.InstAddrSpaceCast:
+				x.From = operand(as[0].ty, as[0].op)
 			default:
-				panic(fmt.Sprintf("harness: unhandled instruction %T", p.inst))
+				// binary instructions: X and Y through reflection-free setters
+				xv, yv := operand(as[0].ty, as[0].op), operand(as[0].ty, as[1].op)
+				switch b := p.inst.(type) {
+				case *ir.InstAdd:
+					b.X, b.Y = xv, yv
+				case *ir.InstSub:
+					b.X, b.Y = xv, yv
+				case *ir.InstMul:
+					b.X, b.Y = xv, yv
+				case *ir.InstUDiv:
+					b.X, b.Y = xv, yv
+				case *ir.InstSDiv:
+					b.X, b.Y = xv, yv
+				case *ir.InstURem:
+					b.X, b.Y = xv, yv
+				case *ir.InstSRem:
+					b.X, b.Y = xv, yv
+				case *ir.InstShl:
+					b.X, b.Y = xv, yv
+				case *ir.InstLShr:
+					b.X, b.Y = xv, yv
+				case *ir.InstAShr:
+					b.X, b.Y = xv, yv
+				case *ir.InstAnd:
+					b.X, b.Y = xv, yv
+				case *ir.InstOr:
+					b.X, b.Y = xv, yv
+				case *ir.InstXor:
+					b.X, b.Y = xv, yv
+				default:
+					panic(fmt.Sprintf("harness: unhandled instruction %T", p.inst))
+				}
+			}
+		}
+		for _, p := range pends {
+			if g, ok := p.inst.(*ir.InstGetElementPtr); ok {
+				g.Type()
 			}
 		}
 	}
-	for _, p := range pends {
-		if g, ok := p.inst.(*ir.InstGetElementPtr); ok {
-			g.Type()
-		}
-	}
-	return fn
 }
 
 func init() {
